@@ -73,6 +73,36 @@ def _kind_of_dtype(dt):
     raise TypeError("data type %r not understood" % (dt,))
 
 
+def poison_div(x, y):
+    """x / y on plain arrays: If(y == 0, P, x / y) with P a fresh registered non-finite value"""
+    c = symx.CTX
+    yz = _simp(y == 0)
+    if z3.is_false(yz):
+        return x / y
+    P = c.fresh('nonfinite')
+    c.poison[P.get_id()] = (P, _simp(x != 0), _simp(x == 0))      # (term, is-infinite condition, is-nan condition)
+    if z3.is_true(yz):
+        return P
+    return z3.If(yz, P, x / z3.If(yz, z3.RealVal(1), y))
+
+
+def nonfinite_conditions(cell):
+    """(is-inf term, is-nan term) of a cell as far as the poison registry knows (False, False for ordinary cells)"""
+    c = symx.CTX
+    reg = getattr(c, 'poison', {})
+    if not reg:
+        return z3.BoolVal(False), z3.BoolVal(False)
+    hit = reg.get(cell.get_id())
+    if hit is not None and hit[0].eq(cell):
+        return hit[1], hit[2]
+    if z3.is_app(cell) and cell.decl().kind() == z3.Z3_OP_ITE:
+        cond, a, b = cell.arg(0), cell.arg(1), cell.arg(2)
+        ia, na = nonfinite_conditions(a)
+        ib, nb = nonfinite_conditions(b)
+        return _simp(z3.If(cond, ia, ib)), _simp(z3.If(cond, na, nb))
+    return z3.BoolVal(False), z3.BoolVal(False)
+
+
 def _T():
     return z3.BoolVal(True)
 
@@ -210,12 +240,10 @@ class ndarray(object):
 
     def __truediv__(self, o):
         if isinstance(o, MaskedArray): return NotImplemented
-        # plain ndarray division by zero gives inf/nan in numpy: outside the real model
+        # plain ndarray division: a zero divisor yields a non-finite value (inf for x != 0, nan for 0/0), represented
+        # by a registered "poison" constant so that isinf / isnan / isfinite can still be answered exactly
         a, b, shape, kb = self._operands(o)
-        for y in b:
-            if symx.CTX.decide(y == 0):
-                raise Outside("plain ndarray division by zero (inf/nan outside the real model)")
-        return ndarray._new([x / y for x, y in zip(a, b)], shape, 'f')
+        return ndarray._new([poison_div(x, y) for x, y in zip(a, b)], shape, 'f')
 
     def _inplace(self, o, fn, name):
         if isinstance(o, MaskedArray):
